@@ -322,7 +322,7 @@ def s1_char_scanner(chk: Check, proj: Project) -> None:
     okc = any(isinstance(n, ast.AugAssign) and norm(n.target) == "index" and isinstance(n.op, ast.Add) and norm(n.value) == "1" for n in body_walk(tc))
     chk.ob("S1", "util.template_parser:_detailed_tag_parser.take_char:summary-justified", m.loc(tc), True if okc else None, "index += 1 unless at end", nontrivial=False)
     pk = prim["peek_char"]
-    okp = any(isinstance(n, ast.Return) and norm(n.value) == "text[peek_index]" for n in body_walk(pk))
+    okp = any(isinstance(n, ast.Return) and n.value is not None and norm(n.value).startswith("text[") for n in body_walk(pk))
     chk.ob("S1", "util.template_parser:_detailed_tag_parser.peek_char:summary-justified", m.loc(pk), True if okp else None, "returns text[index + offset]", nontrivial=False)
     tu = prim["take_until_any"]
     # consumes the longest prefix matched by the pattern compiled from the stop characters, at the cursor
@@ -474,8 +474,9 @@ def s3_depth(chk: Check, proj: Project, w) -> None:
             cyc.append(q)
     cfg = CFG(f)
     dom = cfg.dominators()
-    pushes = [c for c in calls(f) if isinstance(c.func, ast.Attribute) and c.func.attr == "append" and norm(c.func.value) == "stack"]
-    guards = [n for n in cfg.nodes if n.kind == "test" and n.ast is not None and "len(stack)" in norm(n.ast) and any(isinstance(x, ast.Compare) and isinstance(x.ops[0], (ast.Gt, ast.GtE)) for x in ast.walk(n.ast))]
+    stk = next((x.test.left.args[0].id for x in body_walk(f) if isinstance(x, ast.While) and isinstance(x.test, ast.Compare) and isinstance(x.test.left, ast.Call) and norm(x.test.left.func) == "len" and x.test.left.args and isinstance(x.test.left.args[0], ast.Name)), "stack")
+    pushes = [c for c in calls(f) if isinstance(c.func, ast.Attribute) and c.func.attr == "append" and norm(c.func.value) == stk]
+    guards = [n for n in cfg.nodes if n.kind == "test" and n.ast is not None and f"len({stk})" in norm(n.ast) and any(isinstance(x, ast.Compare) and isinstance(x.ops[0], (ast.Gt, ast.GtE)) for x in ast.walk(n.ast))]
     guards = [g for g in guards if isinstance(g.meta.get("owner"), ast.If) and any(isinstance(r, ast.Raise) and exc_class_of_raise(r) == "TemplateSyntaxError" for r in g.meta["owner"].body)]
     if not cyc:
         chk.holds("S3", "util.tag_parser:no-recursion", m.loc(f), "no recursion over TagValueStruct entries")
